@@ -44,13 +44,4 @@ def check(run):
     run.differential("empty-pm-reopen", seqs, classify=classify_reopen)
     run.rules.append("random histories over every mutator (single write, append, delete, range write, batch update outside the open C08 shapes) on each backend, depths 2..8 and 10/16/20; `empty` and the high-water mark observed after every op; persistent backend additionally across close/reopen; distinct = distinct op sequence")
 
-    def confirm(f):
-        w = f["witness"]
-        impl = core.run_impl(run.harness(), w["ops"])
-        if impl[w["at"]] == w["observed"]:
-            return True, ""
-        spec = core.run_lean("spec", w["ops"])
-        if impl[w["at"]] == spec[w["at"]]:
-            return False, "the witness now behaves as the ideal tree"
-        return False, "DIFFERENT: " + impl[w["at"]][:200]
-    run.confirm_findings(confirm)
+    run.confirm_witnesses()
